@@ -32,7 +32,18 @@ IsInput(i) ==
   \/ \E a \in L, b \in L, c \in L, d \in L, fr \in 0..3 :
         Quad(a, b, c, d) /\ i = In(<< <<a, b, c, d>> >>, <<>>, 2, fr)
 
+\* Open subject lines (C09): every polyline of 2 or 3 distinct lattice points (576: horizontal, vertical and slanted
+\* segments, hairpins, lines starting / ending on clip vertices and edges) against every clip triangle, Intersection
+\* and Difference (without a closed subject Union reads as Difference), EvenOdd: 193 536 operations
+OpenIn(o, c, ct) == [open |-> o, subj |-> <<>>, clip |-> c, ct |-> ct, fr |-> 0]
+IsOpenInput(i) ==
+  \/ \E p \in L, q \in L, d \in L, e \in L, f \in L, ct \in {1, 3} :
+        p # q /\ Tri(d, e, f) /\ i = OpenIn(<< <<p, q>> >>, << <<d, e, f>> >>, ct)
+  \/ \E p \in L, q \in L, r \in L, d \in L, e \in L, f \in L, ct \in {1, 3} :
+        p # q /\ q # r /\ p # r /\ Tri(d, e, f) /\ i = OpenIn(<< <<p, q, r>> >>, << <<d, e, f>> >>, ct)
+
 VARIABLE input
+SInitOpen == IsOpenInput(input)
 SInit == IsInput(input)
 SNext == UNCHANGED input
 EmitInput == PrintT(<<"HIST", ToJson(input)>>)
